@@ -197,13 +197,15 @@ func (l *localFS) Put(ctx context.Context, key string, source io.Reader, exclusi
 					zap.Error(err),
 				)
 			}
-			err = target.Close()
-			if err != nil {
+			// the outcome of the write is not lost when the file closes fine
+			if errClose := target.Close(); errClose != nil {
 				l.l.Error("write error, retrying",
 					zap.String("key", key),
-					zap.Error(err),
+					zap.Error(errClose),
 				)
-
+				if err == nil {
+					err = errClose
+				}
 			}
 
 			return err
@@ -227,12 +229,14 @@ func (l *localFS) Put(ctx context.Context, key string, source io.Reader, exclusi
 				)
 			}
 
-			err = target.Close()
-			if err != nil {
+			if errClose := target.Close(); errClose != nil {
 				l.l.Error("write error, retrying",
 					zap.String("key", key),
-					zap.Error(err),
+					zap.Error(errClose),
 				)
+				if err == nil {
+					err = errClose
+				}
 			}
 
 			return err
